@@ -91,7 +91,7 @@ func RunQB(s *simrt.Sim, a *harness.Args, r *harness.Result) {
 		Rcpt: map[string][]actors.Outcome{}, FinalPer: map[string][]actors.Outcome{}}
 	nm := 1 + s.T.Choose(st, 2)
 	for i := 0; i < nm; i++ {
-		m := &Msg{ID: fmt.Sprintf("msg%d", i+1), From: "sender@origin.example"}
+		m := &Msg{ID: fmt.Sprintf("msg%d", i+1), From: "sender@origin.example", OrigFrom: "sender@origin.example"}
 		m.UTF8 = s.T.Choose(st, 2) == 1
 		pool := qbRcpts
 		if !m.UTF8 {
